@@ -13,6 +13,7 @@
 import Manticore.Model.C14
 import Manticore.Lemmas.C14Text
 import Manticore.Lemmas.C14Blob
+import Manticore.Lemmas.C14Total
 namespace Manticore.C14
 open Manticore
 
@@ -198,48 +199,84 @@ theorem keyhash_value_tamper_detected (H : Bytes → Bytes) (v : UInt32) (idb : 
     exact fun e => hne e.symm
   rw [this]
 
-/-
-  FULL STATEMENT (not provable on this tree: see the findings panic@…FromBytes, panic@…RSAKeyMaterial.FromBytes,
-  panic@…GUID.FromRawBytes, panic@…ConvertFromBinaryTime, panic@…KeyCredentialVersion.FromBytes):
+/-! ### a corrupted blob is rejected, never a crash
 
-    every single-bit corruption of the covered entries is *rejected*, i.e. `FromBytes` returns an error or
-    `CheckIntegrity` returns false (unless a collision / self-containing message of `H` is exhibited):
-      ∀ i in the covered range, (fromBytes {} (flipBit b i) = .err ∨ ∃ k', fromBytes {} (flipBit b i) = .ok k' ∧ …)
+With `fixes/C07-keycredential-frombytes-bounds.diff`, `C07-rsakeymaterial-bounds.diff`,
+`C07-guid-fromrawbytes-short.diff`, `C07-keycredential-binarytime-short.diff`,
+`C07-keycredential-fixed-width-readers.diff` and `C07-keycredential-keyhash-walk.diff` the model has
+no reachable panic branch left, so the clause "every corruption is rejected" holds outright. -/
 
-  What is proved above is the property for every corrupted blob that `FromBytes` returns from
-  (`…_or_collision…` theorems: hypothesis `hparse`); the corruptions on which the real code panics instead
-  of returning are exactly the `Outcome.panic` branches of the model, witnessed below on minimal inputs
-  and, on real bit flips of real serialisations, by every harness run.
--/
+/-- **`FromBytes` is total**: on every byte string (and every receiver) it returns a credential or an
+    error. -/
+theorem parse_total (k : KeyCredential) (b : Bytes) : KeyCredential.fromBytes k b ≠ .panic :=
+  fromBytes_no_panic k b
 
-/-- an entry length beyond the end of the buffer: `remainder[length:]` panics -/
-theorem parse_panics_counterexample_entry_length :
-    KeyCredential.fromBytes {} [0, 2, 0, 0, 0xff, 0xff, 3, 0] = .panic := by
+/-- **`CheckIntegrity` is total**: on every credential value — parsed, built, half-initialised — it
+    returns a verdict (`H` arbitrary). -/
+theorem integrity_total (H : Bytes → Bytes) (k : KeyCredential) : ∃ b, integrityOk H k = .ok b := by
+  obtain ⟨⟨b, k'⟩, h⟩ := checkIntegrity_ok H k
+  exact ⟨b, by unfold integrityOk; rw [h]⟩
+
+/-- **`NewKeyCredential` is total**: also outside `Fits` (key material or identifier beyond a 16-bit
+    entry length: `writeEntry` still truncates the length, but the hash walk stops at an entry that
+    overruns the buffer instead of slicing past it). -/
+theorem new_total (H : Bytes → Bytes) (v : UInt32) (ids : Bytes) (m : RSAKeyMaterial) (g : Guid)
+    (t1 t2 : UInt64) : ∃ k, newKeyCredential H v ids m g t1 t2 = .ok k :=
+  newKeyCredential_ok H v ids m g t1 t2
+
+/-- **Every single-bit corruption of the covered entries is rejected** — `FromBytes` returns an error,
+    or `CheckIntegrity` returns false — unless a collision of `H` (or a message containing its own
+    digest) is exhibited.  This is the full statement of the tampering clause: no hypothesis that the
+    corrupted blob parses. -/
+theorem bitflip_rejected_or_collision (H : Bytes → Bytes) (hH : HashLen32 H) (v : UInt32)
+    (idb : Bytes) (m : RSAKeyMaterial) (g : Guid) (t1 t2 : UInt64) (hf : Fits idb m g)
+    (k : KeyCredential) (p : Bytes)
+    (hnew : newKeyCredential H v (fromBinaryId idb v) m g t1 t2 = .ok k)
+    (hb : k.toBytes = .ok (p ++ k.tailBytes))
+    (i : Nat) (hlo : 8 * p.length ≤ i) (hhi : i < 8 * (p ++ k.tailBytes).length) :
+    KeyCredential.fromBytes {} (flipBit (p ++ k.tailBytes) i) = .err ∨
+    (∃ k', KeyCredential.fromBytes {} (flipBit (p ++ k.tailBytes) i) = .ok k' ∧ integrityOk H k' = .ok false) ∨
+    Collision H ∨ SelfContained H := by
+  cases hp : KeyCredential.fromBytes {} (flipBit (p ++ k.tailBytes) i) with
+  | err => left; rfl
+  | panic => exact absurd hp (parse_total _ _)
+  | ok k' =>
+    right
+    obtain ⟨b, hi⟩ := integrity_total H k'
+    cases b with
+    | false => left; exact ⟨k', rfl, hi⟩
+    | true =>
+      right
+      exact bitflip_detected_or_collision_or_selfcontained H hH v idb m g t1 t2 hf k p hnew hb i hlo hhi k' hp hi
+
+/-- an entry length beyond the end of the buffer is an error (was: `remainder[length:]` panicked) -/
+theorem parse_rejects_entry_length :
+    KeyCredential.fromBytes {} [0, 2, 0, 0, 0xff, 0xff, 3, 0] = .err := by
   simp [KeyCredential.fromBytes, parseLoop, le16]
 
-/-- an empty KeySource entry: `entryData[0]` panics -/
-theorem parse_panics_counterexample_empty_source :
-    KeyCredential.fromBytes {} [0, 2, 0, 0, 0, 0, 5, 0] = .panic := by
+/-- an empty KeySource entry is an error (was: `entryData[0]` panicked) -/
+theorem parse_rejects_empty_source :
+    KeyCredential.fromBytes {} [0, 2, 0, 0, 0, 0, 5, 0] = .err := by
   simp [KeyCredential.fromBytes, parseLoop, le16, applyEntry]
 
-/-- a one-byte KeyMaterial entry: `value[:4]` panics in `RSAKeyMaterial.FromBytes` -/
-theorem parse_panics_counterexample_short_material :
-    KeyCredential.fromBytes {} [0, 2, 0, 0, 1, 0, 3, 0] = .panic := by
+/-- a one-byte KeyMaterial entry is an error (was: `value[:4]` panicked in `RSAKeyMaterial.FromBytes`) -/
+theorem parse_rejects_short_material :
+    KeyCredential.fromBytes {} [0, 2, 0, 0, 1, 0, 3, 0] = .err := by
   simp [KeyCredential.fromBytes, parseLoop, le16, applyEntry, RSAKeyMaterial.fromBytes]
 
-/-- a one-byte DeviceId entry: `data[1]` panics in `GUID.FromRawBytes` -/
-theorem parse_panics_counterexample_short_guid :
-    KeyCredential.fromBytes {} [0, 2, 0, 0, 1, 0, 6, 0] = .panic := by
-  simp [KeyCredential.fromBytes, parseLoop, le16, applyEntry, Guid.fromRawBytes]
+/-- a one-byte DeviceId entry is an error (was: `data[1]` panicked in `GUID.FromRawBytes`) -/
+theorem parse_rejects_short_guid :
+    KeyCredential.fromBytes {} [0, 2, 0, 0, 1, 0, 6, 0] = .err := by
+  simp [KeyCredential.fromBytes, parseLoop, le16, applyEntry]
 
-/-- a one-byte time entry: `binary.LittleEndian.Uint64` panics in `ConvertFromBinaryTime` -/
-theorem parse_panics_counterexample_short_time :
-    KeyCredential.fromBytes {} [0, 2, 0, 0, 1, 0, 8, 0] = .panic := by
-  simp [KeyCredential.fromBytes, parseLoop, le16, applyEntry, readTicks]
+/-- a one-byte time entry is an error (was: `binary.LittleEndian.Uint64` panicked in `ConvertFromBinaryTime`) -/
+theorem parse_rejects_short_time :
+    KeyCredential.fromBytes {} [0, 2, 0, 0, 1, 0, 8, 0] = .err := by
+  simp [KeyCredential.fromBytes, parseLoop, le16, applyEntry]
 
-/-- fewer than four bytes: `value[:4]` panics in `KeyCredentialVersion.FromBytes` -/
-theorem parse_panics_counterexample_short_version :
-    KeyCredential.fromBytes {} [0, 2, 0] = .panic := by
+/-- fewer than four bytes are an error (was: `value[:4]` panicked in `KeyCredentialVersion.FromBytes`) -/
+theorem parse_rejects_short_version :
+    KeyCredential.fromBytes {} [0, 2, 0] = .err := by
   simp [KeyCredential.fromBytes]
 
 /-! ### the parts -/
@@ -251,8 +288,7 @@ theorem identifier_roundtrip (d : Bytes) (v : UInt32) : toBinaryId (fromBinaryId
   toBinaryId_fromBinaryId d v
 
 /-- **RSA key material.**  `FromBytes (ToBytes m)` recovers key size, exponent, modulus and both primes
-    (any lengths below 2^32, empty primes included), whatever follows the blob inside the slice's
-    capacity; and `ToBytes` is the BCRYPT_RSAKEY_BLOB layout with a 4-byte big-endian exponent. -/
+    (any lengths below 2^32, empty primes included); and `ToBytes` is the BCRYPT_RSAKEY_BLOB layout with a 4-byte big-endian exponent. -/
 theorem rsa_material_roundtrip (rk0 m : RSAKeyMaterial) (extra : Bytes)
     (hm : m.modulus.length < 2 ^ 32) (h1 : m.prime1.length < 2 ^ 32) (h2 : m.prime2.length < 2 ^ 32) :
     RSAKeyMaterial.fromBytes rk0 m.toBytes extra =
